@@ -471,6 +471,8 @@ class MarkdownNormalizer(Renderer):
             # An empty item still needs its marker, or the item would vanish.
             result += self._prefix.rstrip() + "\n"
             self._prefix = self._second_prefix
+            # Nothing follows in this item that could take the pending suppression.
+            self._suppress_item_break = False
             return result
 
         rendered = self.render_children(element)
